@@ -1443,6 +1443,12 @@ func collectTypes() (found []foundType, partial []string) {
 			}
 			ts := pi.types[n]
 			_, hasSpec := specParam(ms["Deserialize"])
+			for _, m := range fiveMethods {
+				if _, hs := specParam(ms[m]); hs != hasSpec {
+					partial = append(partial, q+": the five methods disagree on taking a *Spec ("+m+"), the type implements neither SSZObj nor SpecObj")
+					break
+				}
+			}
 			ft := foundType{pkg: pn, name: n, spec: hasSpec}
 			d := "(DUnknown " + cstr("no type decl") + ")"
 			p := q
